@@ -299,6 +299,8 @@ class Check(common.Check):
             if k == 'opnd' and name in ('eq', 'ne'):
                 k = 'chan'
             a, b = self.operand(rng, k), self.partner(rng, k)
+            while name in ('eq', 'ne') and 'opnd' in (a[0], b[0]):
+                b = self.partner(rng, k)    # Operand.__eq__/__ne__ are redefined as plain comparisons
             side = rng.random()
             args = [a, b] if side < 0.5 or b[0] in ('fn', 'strm', 'pat', 'chan', 'opnd') and side < 0.7 else [b, a]
             return {'via': 'pyop', 'name': name, 'args': args}
